@@ -80,6 +80,11 @@ def build(cinco, d, root=None, with_default=True):
         return cinco.AnyField(**kw)
     if kind in ("string", "ipv4addr", "ipv4net", "hostname", "url", "filename"):
         kw.update(string_kwargs(d))
+        if kind == "string" and d.get("appmode"):
+            # ApplicationModeField: choices = modes, lower-cased and stripped, helper virtual fields
+            for k in ("choices", "transform_case", "transform_strip"):
+                kw.pop(k, None)
+            return F.ApplicationModeField(modes=[_str(c) for c in codec.seq(d["choices"])], **kw)
         if kind == "string":
             return F.StringField(**kw)
         if kind == "ipv4addr":
